@@ -122,6 +122,7 @@ def write_evidence(prop, tier, seed, t0, R, C, violations, note=""):
             checker_cmd="cd /verif/coq && coq_makefile -f _CoqProject -o Makefile && make -j16   (full .vo build; Properties/%s.v holds the statements, each closed by `exact` and followed by Print Assumptions)" % prop,
             trusted_base=TRUSTED,
             coqchk=(dict(rc=C["coqchk"]["rc"], modules=C["coqchk"]["modules"], seconds=C["coqchk"]["seconds"], axioms=C["coqchk"]["axioms"] or "none") if C.get("coqchk") else "thorough tier only"),
+            implementation_code_executed=(C["implcov"] if C.get("implcov") else "thorough tier only"),
             traces_validated_against_impl=s.get("histories", 0),
             evaluations=s.get("steps", 0),
             steps_compared_model_vs_impl=s.get("steps_compared", 0),
@@ -134,7 +135,7 @@ def write_evidence(prop, tier, seed, t0, R, C, violations, note=""):
             relevant_steps=n_steps,
             distinct_nontrivial=distinct,
             histories_exercising_property=hists,
-            rule="histories are generated by harness/gen.go from VERIF_SEED (profiles fixed/batch/multi/hooks/genesis/fault/malformed/crowd/extreme) after the corpus; every operation is executed on the real keeper, replayed on the extracted model from the implementation's own pre-state, and judged by the extracted checker of this property. A step is relevant when it carries one of the tags %s; distinct_nontrivial counts distinct per-history sequences of such tag sets." % PROPS[prop]["tags"],
+            rule="histories are generated by harness/gen.go from VERIF_SEED (profiles fixed/batch/multi/hooks/genesis/fault/malformed/crowd/extreme/heavy) after the corpus; every operation is executed on the real keeper, replayed on the extracted model from the implementation's own pre-state, and judged by the extracted checker of this property. A step is relevant when it carries one of the tags %s; distinct_nontrivial counts distinct per-history sequences of such tag sets." % PROPS[prop]["tags"],
             op_histogram={k[3:]: v for k, v in s.items() if k.startswith("op.")},
             tag_histogram={k[3:]: v for k, v in s.items() if k.startswith("nt.")},
             samples=samples_from(R, prop) if R else [],
